@@ -6,7 +6,7 @@
 (* Invariants: the network is well formed for Einsum.tla and its L1 result shape is the shape of the      *)
 (* declared free labels.                                                                                 *)
 EXTENDS NetworkOrder
-CONSTANTS MaxRank, Quota, Quota4
+CONSTANTS MaxRank, Quota, Quota4, Quota4R
 VARIABLE c
 Seed == atoi(IOEnv.VERIF_SEED)
 Labs == 1..5
@@ -27,12 +27,22 @@ Lists2 == {<<a>> : a \in Labs} \cup {p \in {<<a, b>> : a \in Labs, b \in Labs} :
 \* 4 operands: additionally no triple may contract to a scalar (same zero-length-index compile error one level down)
 NoScalarTriple(ls) == \A a, b, d \in 1..4 : (a < b /\ b < d) => FreeOfLists(<<ls[a], ls[b], ls[d]>>) # <<>>
 Nets4 == {ls \in Lists2 \X Lists2 \X Lists2 \X Lists2 : OKNet(ls) /\ NoScalarTriple(ls) /\ (HL(ls) + Seed) % Quota4 = 0}
+\* 4 operands with a rank-3 first operand (the smallest networks in which two contraction orders of a triplet can tie while both of its
+\* first two operands keep a free index: the cost model's tie-breaking then decides the labelling of the intermediate)
+Nets4R == {ls \in {<<1, 2, 3>>} \X Lists2 \X Lists2 \X Lists2 : OKNet(<<ls[1], ls[2], ls[3], ls[4]>>) /\ NoScalarTriple(<<ls[1], ls[2], ls[3], ls[4]>>)
+                                                                  /\ Len(FreeOfLists(<<ls[1], ls[2], ls[3], ls[4]>>)) <= 5     \* the judge enumerates arrangements of the free labels
+                                                                  /\ (HL(<<ls[1], ls[2], ls[3], ls[4]>>) + Seed) % Quota4R = 0}
+\* three-legged stars on six labels, every orientation of the legs (always included)
+Leg(x, y, o) == IF o = 0 THEN <<x, y>> ELSE <<y, x>>
+Stars == {<<<<1, 2, 3>>, Leg(1, 4, o[1]), Leg(2, 5, o[2]), Leg(3, 6, o[3])>> : o \in [1..3 -> {0, 1}]}
 ExtOf(mode, x) == CASE mode = "u2" -> 2 [] mode = "u3" -> 3 [] mode = "d" -> <<2, 3, 4, 2, 3>>[x] [] mode = "e" -> <<3, 2, 2, 4, 3>>[x]
 Mk(ls, mode, t) == [labels |-> ls, shapes |-> [o \in 1..Len(ls) |-> [a \in 1..Len(ls[o]) |-> ExtOf(mode, ls[o][a])]], mode |-> mode, T |-> t]
 Cases == { Mk(ls, m, t) : ls \in {n \in Nets3 : (HL(n) + Seed) % Quota = 0}, m \in {"u2", "u3", "d", "e"}, t \in {"f64", "i32"} }
          \* 4 operands with uniform extents only: with distinct extents some networks are rejected at compile time by the library's own
          \* "dimension mismatch" check on an intermediate whose free labels come out in pairing order (the compile-time face of finding D8)
          \cup { Mk(ls, "u2", "f64") : ls \in Nets4 }
+         \cup { Mk(<<ls[1], ls[2], ls[3], ls[4]>>, m, "f64") : ls \in Nets4R, m \in {"u2", "u3"} }
+         \cup { Mk(ls, m, "f64") : ls \in Stars, m \in {"u2", "u3"} }
 Keep(x) == x.T = "f64" \/ (HL(x.labels) + Len(x.mode)) % 3 = 0
 Init == c \in {x \in Cases : Keep(x)}
 Next == UNCHANGED c
